@@ -158,9 +158,11 @@ func b2i(b bool) int {
 func init() {
 	// ------------------------------------------------------------------ C02
 	registerLab(&LabProp{
-		ID:       "C02",
-		Variants: lab.ASTVariants,
-		Chunks:   func(c *drv.Ctx) int { return c.Pick(1, 10) },
+		ID:         "C02",
+		Variants:   lab.ASTVariants,
+		NativeFuzz: 150,
+		FuzzOracle: "differential",
+		Chunks:     func(c *drv.Ctx) int { return c.Pick(1, 10) },
 		Opts: func(c *drv.Ctx) lab.CollectOpts {
 			return lab.CollectOpts{N: c.Pick(128, 240), Profiles: []string{"switchy", "switchy", "plain", "switchy", "backtracky", "switchy"},
 				Inputs: c.Pick(24, 36), Hostile: false, MaxRune: true}
@@ -233,9 +235,11 @@ func init() {
 	// ------------------------------------------------------------------ C03
 	sizeModes := []proto.Mode{memoMode, {Size: 1}, {Size: 2}, {Size: 1<<15 + 1}}
 	registerLab(&LabProp{
-		ID:       "C03",
-		Variants: []lab.Variant{lab.V0},
-		Chunks:   func(c *drv.Ctx) int { return c.Pick(1, 8) },
+		ID:         "C03",
+		Variants:   []lab.Variant{lab.V0},
+		NativeFuzz: 120,
+		FuzzOracle: "tokens",
+		Chunks:     func(c *drv.Ctx) int { return c.Pick(1, 8) },
 		Opts: func(c *drv.Ctx) lab.CollectOpts {
 			return lab.CollectOpts{N: c.Pick(100, 300), Profiles: []string{"backtracky", "plain", "backtracky", "deep", "liney"},
 				Inputs: c.Pick(24, 40), Hostile: true,
@@ -468,9 +472,11 @@ func init() {
 	// ------------------------------------------------------------------ C06
 	c06Variants := []lab.Variant{lab.V0, lab.V3}
 	registerLab(&LabProp{
-		ID:       "C06",
-		Variants: c06Variants,
-		Chunks:   func(c *drv.Ctx) int { return c.Pick(1, 8) },
+		ID:         "C06",
+		Variants:   c06Variants,
+		NativeFuzz: 120,
+		FuzzOracle: "tokens",
+		Chunks:     func(c *drv.Ctx) int { return c.Pick(1, 8) },
 		Opts: func(c *drv.Ctx) lab.CollectOpts {
 			return lab.CollectOpts{N: c.Pick(80, 250), Profiles: []string{"backtracky", "backtracky", "plain", "deep", "switchy"},
 				Inputs: c.Pick(24, 40), Hostile: true,
@@ -539,9 +545,11 @@ func init() {
 	// ------------------------------------------------------------------ C07
 	c07Variants := []lab.Variant{lab.V0, lab.N0, lab.N1, lab.N2, lab.N3}
 	registerLab(&LabProp{
-		ID:       "C07",
-		Variants: c07Variants,
-		Chunks:   func(c *drv.Ctx) int { return c.Pick(1, 8) },
+		ID:         "C07",
+		Variants:   c07Variants,
+		NativeFuzz: 120,
+		FuzzOracle: "verdict",
+		Chunks:     func(c *drv.Ctx) int { return c.Pick(1, 8) },
 		Opts: func(c *drv.Ctx) lab.CollectOpts {
 			return lab.CollectOpts{N: c.Pick(64, 200), Profiles: []string{"actiony", "backtracky", "switchy", "actiony", "liney"},
 				Inputs: c.Pick(24, 36), Hostile: true,
